@@ -86,7 +86,8 @@ theorem variant_store_then_query_hits_norm (sp : Str → Option (Str × Str)) (p
 def tokFp (sp : Str → Option (Str × Str)) (puny : Str → Str) (trie : SNode Str) (sa sfx : Bool) (u : Str) :
     List Str :=
   match fingerprintedLruStems sp (stringEnv puny id trie) sa sfx u with
-  | .ok st => st
+  | .ok (some st) => st
+  | .ok none => []
   | .error _ => []
 
 open Ural.FpReparse in
